@@ -1087,6 +1087,7 @@ def _check(run, tmp):
                               'stuck': obs['stuck']}, None))
     # 4. property-level oracle
     failures += oracle(run, rnd, tmp, TT, MT, thorough)
+    failures += nested_histories(run, rnd, tmp, thorough)
     al_fail, al_corr = allowlist_histories(run, rnd, tmp, thorough, tie_msg is None)
     failures += al_fail
     if al_corr and corr_bad is None:
@@ -1112,7 +1113,7 @@ def _check(run, tmp):
                 searched += 'did not reproduce on the real code'
     # verdict
     seen = set()
-    order = {'forced-schedule-min': -1, 'allowlist-history': 1, 'option-field-history': 2, 'forced-schedule': 0, 'overlap-probe': 1, 'preemption-sweep': 1, 'sequential-history': 2, 'redefinition': 2}
+    order = {'forced-schedule-min': -1, 'allowlist-history': 1, 'nested-history': 1, 'option-field-history': 2, 'forced-schedule': 0, 'overlap-probe': 1, 'preemption-sweep': 1, 'sequential-history': 2, 'redefinition': 2}
     failures.sort(key=lambda f: order.get(f[1].get('kind'), 5))
     for title, rep, cls in failures:
         norm = re.sub(r'\d+', 'N', title)
@@ -1735,6 +1736,147 @@ def allowlist_histories(run, rnd, tmp, thorough, tie_ok, only_hist=None):
 
 
 
+NESTED_SCRIPT = '''import json, sys
+from malt.core import converter
+from malt.impl import api
+F = converter.Feature
+
+
+class Probe(object):
+    def __init__(self, log):
+        self.log = log
+
+    def __eq__(self, other):
+        self.log.append('__eq__')
+        return False
+
+    def __ne__(self, other):
+        self.log.append('__ne__')
+        return False
+    __hash__ = object.__hash__
+
+
+def make_pair():
+    tag = object()
+
+    def inner(a, b):
+        r = a != b
+        return r, tag is not None
+
+    def outer(a, b):
+        return inner(a, b)
+
+    def outer_lambda(a, b):
+        g = lambda u, v: inner(u, v)
+        return g(a, b)
+    return outer, outer_lambda, inner
+
+
+def feats(spec):
+    if spec is None:
+        return None
+    if isinstance(spec, list):
+        return tuple(F[x] for x in spec)
+    return F[spec]
+
+
+def observe(fn):
+    log = []
+    try:
+        value, _ = fn(Probe(log), Probe(log))
+        return [repr(value), log]
+    except Exception as ex:
+        return ['raised %s: %s' % (type(ex).__name__, str(ex)[:150]), log]
+
+
+def main():
+    out = []
+    for which, spec in json.loads(sys.argv[1]):
+        outer, outer_lambda, inner = make_pair()
+        fn = {'outer': outer, 'outer_lambda': outer_lambda, 'inner': inner}[which]
+        out.append(observe(api.to_graph(fn, recursive=True, experimental_optional_features=feats(spec))))
+    print('RESULT ' + json.dumps(out))
+
+
+main()
+'''
+
+
+def nested_histories(run, rnd, tmp, thorough):
+    """Option sets that differ ONLY in optional_features; the outer function
+    calls an inner user function (directly / through a lambda) whose conversion
+    depends on the feature (`!=` under EQUALITY_OPERATORS uses __eq__, else
+    __ne__).  Every history runs in a fresh process; every request is compared
+    with a single fresh conversion of `inner` under the same options in a
+    process of its own (and with the prediction)."""
+    from concurrent.futures import ThreadPoolExecutor
+    failures = []
+    script = os.path.join(tmp, 'c10_nested.py')
+    with open(script, 'w') as f:
+        f.write(NESTED_SCRIPT)
+    specs = [None, 'EQUALITY_OPERATORS', ['EQUALITY_OPERATORS', 'LISTS'], 'LISTS', ['LISTS', 'BUILTIN_FUNCTIONS']]
+
+    def txt(spec):
+        return 'None' if spec is None else ('(%s)' % ', '.join('Feature.' + x for x in spec) if isinstance(spec, list) else 'Feature.' + spec)
+
+    def predict(spec):
+        uses = spec is not None and ('EQUALITY_OPERATORS' in (spec if isinstance(spec, list) else [spec]))
+        return ['True', ['__eq__']] if uses else ['False', ['__ne__']]     # not_(eq(a, b)) vs a.__ne__(b)
+
+    def proc(hist):
+        rc, out = vlib.sh([vlib.PY, script, json.dumps(hist)], timeout=300, env=vlib.repo_env({'TMPDIR': tmp}))
+        m = re.search(r'^RESULT (.*)$', out, re.M)
+        if not m:
+            return None, out[-800:]
+        return json.loads(m.group(1)), None
+    hists = []
+    pairs = [(specs[0], specs[1]), (specs[1], specs[2]), (specs[1], specs[3])]
+    for a, b in pairs:
+        hists.append([['outer', a], ['outer', b]])
+        hists.append([['outer', b], ['outer', a]])
+    hists.append([['outer_lambda', specs[0]], ['outer_lambda', specs[1]], ['outer', specs[0]]])
+    hists.append([['outer_lambda', specs[1]], ['outer', specs[0]], ['outer', specs[2]]])
+    for _ in range(12 if thorough else 2):
+        hists.append([[rnd.choice(['outer', 'outer_lambda', 'inner']), rnd.choice(specs)] for _ in range(rnd.randint(2, 5))])
+    refs = [[['inner', sp]] for sp in specs]
+    with ThreadPoolExecutor(max_workers=6) as ex:
+        results = list(ex.map(proc, refs + hists))
+    fresh = {}
+    for sp, (res, err) in zip(specs, results[:len(refs)]):
+        if res is None:
+            failures.append(('fresh-process conversion failed', {'kind': 'nested-history', 'spec': txt(sp), 'output': err}, None))
+            return failures
+        fresh[json.dumps(sp)] = res[0]
+        if res[0] != predict(sp):
+            what = 'a single fresh conversion does not honour optional_features'
+            failures.append((what, {'what': what, 'kind': 'nested-history', 'history': ['to_graph(inner, recursive=True, experimental_optional_features=%s)' % txt(sp)],
+                                    'observed(value, comparison methods used)': res[0], 'expected': predict(sp)}, None))
+    run.count(len(refs))
+    for hist, (res, err) in zip(hists, results[len(refs):]):
+        run.count(len(hist))
+        desc = ['to_graph(%s, recursive=True, experimental_optional_features=%s)(Probe, Probe)' % (w, txt(sp)) for w, sp in hist]
+        if res is None:
+            failures.append(('a nested-call history crashed', {'kind': 'nested-history', 'history': desc, 'output': err}, None))
+            continue
+        for idx, ((w, sp), got) in enumerate(zip(hist, res)):
+            want = fresh[json.dumps(sp)]
+            if got != want:
+                what = ('a nested callee is converted under the options of an EARLIER, unrelated request '
+                        '(option sets differing only in optional_features alias)')
+                failures.append((what, {'what': what, 'kind': 'nested-history', 'history (fresh process)': desc,
+                                        'history_raw': hist, 'failing_request_index': idx,
+                                        'observed(value, comparison methods the inner `a != b` used)': got,
+                                        'fresh conversion of inner under the same options, in a process of its own': want,
+                                        'functions': 'make_pair() of NESTED_SCRIPT (tools/props/c10.py): outer(a, b) calls inner(a, b): r = a != b'},
+                                 None))
+                break
+        if failures:
+            break
+    run.extra['nested_call_histories'] = len(hists)
+    return failures
+
+
+
 def malt_oracle(run, rnd, tmp, MT, thorough):
     """The real transpiler: options are ConversionOptions values, the reference
     is a conversion by a fresh (empty-cache) transpiler and the original
@@ -1925,6 +2067,19 @@ def replay(path):
                 rc = 1
             print('REPRODUCED' if rc else 'not reproduced')
             return rc
+        if kind == 'nested-history' and rep.get('history_raw'):
+            script = os.path.join(tmp, 'c10_nested.py')
+            with open(script, 'w') as f:
+                f.write(NESTED_SCRIPT)
+            rc = 0
+            outs = []
+            for h in (rep['history_raw'], [rep['history_raw'][rep['failing_request_index']]]):
+                _, out = vlib.sh([vlib.PY, script, json.dumps(h)], timeout=300, env=vlib.repo_env({'TMPDIR': tmp}))
+                outs.append(json.loads(re.search(r'^RESULT (.*)$', out, re.M).group(1)))
+            got, want = outs[0][rep['failing_request_index']], outs[1][0]
+            print('in the history:', got, '| alone in a fresh process:', want)
+            print('REPRODUCED' if got != want else 'not reproduced')
+            return 1 if got != want else 0
         if kind == 'allowlist-history':
             hist = [tuple(x) for x in rep['history_raw']]
             bad, obs = allowlist_histories(None, None, tmp, False, False, only_hist=hist)
